@@ -241,7 +241,7 @@ fn main() {
             cr
         }));
         // ---- random lattice sessions (several objects, queues, transfers, sources)
-        let n_rand = ctx.tier.pick(20_000usize, 400_000);
+        let n_rand = ctx.tier.pick(20_000usize, 1_500_000);
         gens.push(Gen::new("lattice", n_rand, move |ctx, i| {
             let mut rng = Rng::keyed(ctx.seed, "C01lat", 0, i as u64);
             let (spec, objs) = gen::gen_session(&mut rng, &GenOpts::default());
